@@ -1,3 +1,6 @@
+import Chain33Model.Proofs.C01Depth
+import Chain33Model.Proofs.C01StoreInv
+import Chain33Model.Proofs.C04
 import Chain33Model.Proofs.C01Batch
 import Chain33Model.Proofs.C01Store
 import Chain33Model.Proofs.C01Consistent
@@ -123,18 +126,10 @@ theorem old_roots_stable (cfg : Cfg) (db db' : NodeDB) (hsub : Sub db db') (n : 
     load db' fuel top h = load db fuel top h :=
   load_stable cfg db db' hsub n hs hf fuel top h hh hd
 
-/-- full statement aimed at for `save`: saving a hashed tree makes it loadable and keeps every earlier record,
-or the hash function has a collision (content addressing), with no side condition on the records. -/
-def LoadSaveFull : Prop :=
-  ∀ (H : Bytes → Bytes), (∀ x, (H x).length = 32) → ∀ (cfg : Cfg) (n n' : Node) (db db' : NodeDB),
-    C03.Hashed H n → save cfg n db = some (n', db') → PersistedStored cfg db n → FitsRec n →
-    ∀ (root : Bytes), n.info.hk = some root → ∀ (fuel : Nat) (top : Bool), depth n < fuel →
-      (load db' fuel top root = .ok (asLoaded cfg n) ∧ Sub db db' ∧ Stored cfg db' n') ∨ C03.Collision H
-
-/-- **load_save_partial** — `LoadSaveFull` with the added hypothesis `Consistent`: no database key receives two
+/-- **load_save_partial** — `save` then `load` under the hypothesis `Consistent`: no database key receives two
 different records (neither among the records written by this `save`, nor against a record already present).
 Under a fixed configuration without height prefix this is what collision-freeness gives (key = hash of the
-content); deriving it from `¬ Collision H` is left open, and with the height prefix it can genuinely fail for the
+content: `load_save_or_collision` below derives it), and with the height prefix it can genuinely fail for the
 *root* record (same root hash, other child keys — the C02 finding lives there).  Then: the saved tree is read back
 exactly, every earlier record is kept (so `old_roots_stable` applies to all earlier roots), and the returned tree
 is stored. -/
@@ -170,25 +165,31 @@ theorem set_keeps_keyMin (t : Node) (k v : Bytes) (hst : ST t) (hkm : KeyMin t) 
   set_keyMin t k v hst hkm t' u e
 
 /-- **merkle_binding** — two well-formed trees with the same hash have the same content (keys, values, shape,
-stored heights and sizes, inner keys), or the hash function has a collision. -/
+stored heights and sizes, inner keys), or two DIFFERENT strings among those hashed in the two trees
+(`C03.treeTrace`: the leaf and inner-node encodings, an explicit finite list) have the same hash. -/
 theorem merkle_binding {H : Bytes → Bytes} (hlen : ∀ x, (H x).length = 32) (n m : Node)
     (sn : C03.Shape n) (sm : C03.Shape m) (kn : KeyMin n) (km : KeyMin m)
-    (e : C02.pureHash H n = C02.pureHash H m) : C02.erase n = C02.erase m ∨ C03.Collision H :=
+    (e : C02.pureHash H n = C02.pureHash H m) :
+    C02.erase n = C02.erase m ∨ C03.CollisionIn H (C03.treeTrace H n ++ C03.treeTrace H m) :=
   pureHash_inj hlen n m sn sm kn km e
 
 /-- **load_save_or_collision** (full, store without `EnableMavlPrefix`) — `PH H n`: every node of the tree is keyed by the hash of
-its content (what `Node.Hash` does without the prefix: `hashNode_keys_content`); `DBInv`: the database only holds
-records of well-formed nodes under their hashes (kept by `save`, part of the conclusion).  Then `save` makes the
-tree loadable exactly as saved and keeps every earlier record — or the hash function has a collision.
+its content (what `Node.Hash` does without the prefix: `hashNode_keys_content`); `DBInv … W`: every record of the
+database is the record of a well-formed node from the explicit list `W` (the nodes saved so far), under that node's
+hash (kept by `save` for `W ++ subnodes n`, part of the conclusion).  Then `save` makes the tree loadable exactly
+as saved and keeps every earlier record — or two different strings among those hashed in the tree and in the nodes
+of `W` have the same hash (a located collision; the unlocated `∃ x ≠ y, H x = H y` would be true of every
+32-byte-valued function by counting and is not what is stated).
 With the height prefix the statement is false for the *root* record (same root hash, other child keys: the
 mechanism behind the C02 finding); there `load_save_partial` with its explicit `Consistent` stays. -/
 theorem load_save_or_collision {H : Bytes → Bytes} (hlen : ∀ x, (H x).length = 32) (cfg : Cfg) (n n' : Node) (db db' : NodeDB)
+    (W : List Node)
     (hsave : save cfg n db = some (n', db')) (hp : PH H n) (hs : C03.Shape n) (hk : KeyMin n)
-    (hdb : DBInv H cfg db) (hps : PersistedStored cfg db n) (hf : FitsRec n)
+    (hdb : DBInv H cfg db W) (hps : PersistedStored cfg db n) (hf : FitsRec n)
     (fuel : Nat) (top : Bool) (hd : depth n < fuel) :
     (load db' fuel top (C02.pureHash H n) = .ok (asLoaded cfg n) ∧ Sub db db' ∧ Stored cfg db' n' ∧
-      DBInv H cfg db') ∨ C03.Collision H :=
-  load_save_full hlen cfg n n' db db' hsave hp hs hk hdb hps hf fuel top hd
+      DBInv H cfg db' (W ++ subnodes n)) ∨ C03.CollisionIn H (C03.treeTrace H n ++ tracesOf H W) :=
+  load_save_full hlen cfg n n' db db' W hsave hp hs hk hdb hps hf fuel top hd
 
 /-- how `PH` comes about: without the prefix, `Node.Hash` on a tree whose untouched parts are keyed by content
 (`PHoF`, kept by `set`: `set_phoF`) keys every node by the hash of its content and returns the pure hash. -/
@@ -198,7 +199,7 @@ theorem hashNode_keys_content {H : Bytes → Bytes} (cfg : Cfg) (hpf : cfg.pfx =
   ⟨a, b⟩
 
 /-- non-vacuity: the empty database satisfies `DBInv`; a fresh leaf is `PHoF`, `KeyMin`, `Shape`. -/
-example (H : Bytes → Bytes) : DBInv H Cfg.default {} ∧ PHoF H (.leaf [1] [2] Meta.fresh) ∧
+example (H : Bytes → Bytes) : DBInv H Cfg.default {} [] ∧ PHoF H (.leaf [1] [2] Meta.fresh) ∧
     KeyMin (.leaf [1] [2] Meta.fresh) ∧ C03.Shape (.leaf [1] [2] Meta.fresh) :=
   ⟨fun k v h => by simp at h, Or.inl rfl, trivial, trivial⟩
 
@@ -243,5 +244,129 @@ theorem get_remove (t : Tree) (k : Bytes) (hi : TInvK t) :
 example : TInvK (some (.inner [98] 1 2 (.leaf [97] [1] Meta.fresh) (.leaf [98] [2] Meta.fresh) Meta.fresh)) := by
   refine ⟨⟨trivial, trivial, ?_, ?_⟩, ⟨trivial, trivial, rfl, rfl, by decide, by decide⟩, ⟨trivial, trivial, rfl⟩⟩ <;>
     simp [lt, le, cmpB]
+
+/-! ### the side conditions of the save/load theorems, discharged -/
+
+/-- **depth_lt_loadFuel** — `load` never runs out of its recursion budget on a tree the store can hold: a balanced
+tree whose stored size fits an int32 is lower than `loadFuel` (an AVL tree of height h has at least 2^(h/2) leaves).
+Discharges `depth n < fuel` of `load_stored` / `old_roots_stable` / `load_save_*` for `loadTree`. -/
+theorem depth_lt_loadFuel (n : Node) (hw : WF n) (hf : FitsRec n) : depth n < loadFuel :=
+  depth_lt_loadFuel_aux n hw hf
+
+/-- **save_total** — `save` cannot take its "node without hash" branch after `Node.Hash`: on a tree whose untouched
+parts are hashed (`HoF`, kept by `set`: `C02.set_hoF`) `hashRoot` leaves a key on every node, and `save` of such a
+tree answers (this is the "both panic" disjunct of `C02.memset_commit_eq_set`, unreachable). -/
+theorem save_total {H : Bytes → Bytes} (hlen : ∀ x, (H x).length = 32) (cfg : Cfg) (bh : Nat) (t : Node)
+    (hf : C02.HoF H t) (db : NodeDB) : ∃ n' db', save cfg (hashRoot H cfg bh t).1 db = some (n', db') := by
+  obtain ⟨hh, _⟩ := C02.hashNode_spec hlen cfg bh t.height t hf
+  obtain ⟨n', db', e, _⟩ := save_total_keyed cfg _ (keyed_of_hashed _ hh) db
+  exact ⟨n', db', e⟩
+
+/-- **loaded_tree_inv** — what `load` returns for a saved tree (`asLoaded`, `load_stored`) is again a tree the next
+batch can be applied to: same leaf keys, search-tree order, stored heights/sizes with the AVL balance, inner keys,
+node keys; and — only when MVCC does not elide the values (`cfg.mvcc = false`) — the same key/value list and the
+content-keyed property `PH`.  Under `enableMVCC` the loaded leaves carry no values: reads of values at a root are a
+property of the mvcc store (C09), not of this tree. -/
+theorem loaded_tree_inv {H : Bytes → Bytes} (cfg : Cfg) (n : Node) :
+    (ST n → ST (asLoaded cfg n)) ∧ (WF n → WF (asLoaded cfg n)) ∧ (KeyMin n → KeyMin (asLoaded cfg n)) ∧
+    (C03.Shape n → C03.Shape (asLoaded cfg n)) ∧ (asLoaded cfg n).info.hk = n.info.hk ∧
+    (cfg.mvcc = false → (asLoaded cfg n).toList = n.toList ∧ (PH H n → PH H (asLoaded cfg n))) :=
+  ⟨asLoaded_ST cfg n, (asLoaded_inv cfg n).1, (asLoaded_inv cfg n).2.1, (asLoaded_inv cfg n).2.2, asLoaded_hk cfg n,
+    fun hm => ⟨asLoaded_toList cfg hm n, fun hp => (asLoaded_PH cfg hm n hp).1⟩⟩
+
+/-! ### store level: reading at a stored root, after later commits and after reopen -/
+
+/-- **get_at_stored_root** — `Store.Get` at the root of a tree that is stored in the database (what `save` leaves:
+`Stored`, conclusion of `load_save_*`), in ANY later store state `s'` whose database
+still holds the earlier records (`Sub`: every later commit only adds records) and that has no pending tree under
+that root — in particular after close + reopen — answers, for every key, the value in the saved tree's key/value
+list.  Without MVCC (`cfg.mvcc = false`; under `enableMVCC` the loaded leaves carry no values).  `C04.CacheOK`: the
+node cache only holds what the database holds (true of a fresh / reopened store, kept by MemSet / Rollback / Get).
+Together with `toList_foldl_set` (the list after the batches is the sorted map of the writes) this is the read clause
+for one root; the fold over `Store.setKV` histories that establishes `Stored` for every root is not composed. -/
+theorem get_at_stored_root (cfg : Cfg) (hm : cfg.mvcc = false) (db : NodeDB) (n : Node) (r : Bytes)
+    (hs : Stored cfg db n) (hf : FitsRec n) (hw : WF n) (hst : ST n) (hr : n.info.hk = some r)
+    (hr0 : ¬ (r.isEmpty ∨ r = List.replicate 32 0))
+    (s' : Store) (hsub : Sub db s'.db) (hc : C04.CacheOK s')
+    (hno : ∀ x, lookupTree s'.trees r ≠ some (some x)) (ks : List Bytes) :
+    (s'.get r ks).1 = .ok (ks.map (fun k => SMap.lookup k n.toList)) ∧
+    (s'.reopen.get r ks).1 = .ok (ks.map (fun k => SMap.lookup k n.toList)) := by
+  have hl : ∀ db', Sub db db' → C04.dbRead db' r ks = .ok (ks.map (fun k => SMap.lookup k n.toList)) := by
+    intro db' hsub'
+    have e := load_of_stored cfg db' n (hs.mono hsub') hf loadFuel true r hr (depth_lt_loadFuel_aux n hw hf)
+    unfold C04.dbRead loadTree
+    rw [if_neg hr0, e]
+    simp only [Res.ok.injEq]
+    apply List.map_congr_left
+    intro k _
+    simp only [Tree.get]
+    rw [get_eq_lookup _ k (asLoaded_ST cfg n hst), asLoaded_toList cfg hm n]
+  refine ⟨?_, ?_⟩
+  · rw [C04.get_reply_db s' hc r ks hno]; exact hl _ hsub
+  · rw [C04.get_reply_db s'.reopen (C04.reopen_cacheOK s') r ks (by intro x; simp [Store.reopen, lookupTree])]
+    exact hl _ hsub
+
+/-- non-vacuity of `get_at_stored_root`: a one-leaf state stored under the key `[9]`, read in a store over that
+database with nothing pending and an empty cache. -/
+example :
+    let n : Node := .leaf [1] [2] ⟨some [9], true⟩
+    let db : NodeDB := ({} : NodeDB).insert [9] (storeRec Cfg.default [1] [2] [] [] 0 1)
+    Stored Cfg.default db n ∧ FitsRec n ∧ WF n ∧ ST n ∧ ¬ (([9] : Bytes).isEmpty ∨ [9] = List.replicate 32 0) ∧
+      C04.CacheOK ⟨Cfg.default, db, [], {}⟩ ∧ ∀ x, lookupTree ([] : List (Bytes × Option Node)) [9] ≠ some (some x) := by
+  intro n db
+  refine ⟨⟨[9], rfl, by simp [db]⟩, ⟨by decide, by decide, ?_⟩, trivial, trivial, by decide, ?_, ?_⟩
+  · intro h e; simp at e; subst e; decide
+  · intro h x e; simp at e
+  · intro x e; simp [lookupTree] at e
+
+/-! ### store level, end to end: histories of `Store.Set` from the empty store -/
+
+/-- **store_reads_latest** — the read clause on the executable store model that the driver runs, for stores without
+`EnableMavlPrefix` and without `enableMVCC` (any of the other flags): commit the batches `bs` one after the other
+through `Store.Set` starting from a new store (`hist`: block `i` at height `i`, on top of the previous root).  Then
+every `Store.Set` answers a root, and in the FINAL store — after all later commits — and in the final store after
+close + reopen, `Store.Get` at the root of batch `i` answers for every key the value of the most recent write to it
+in the batches `1..i`, nothing if it was never written.
+Or two DIFFERENT strings among the node encodings hashed on the way (`tracesOf H` of the nodes `Node.Hash` hashed,
+returned by `hist` as a ghost component: an explicit finite list) have the same hash.
+Hypotheses: 32-byte outputs; no hash is the all-zero root (`loadTree` reads an all-zero root as the empty state, as
+the code does); keys/values shorter than 2^64 bytes; fewer than 2^31 keys in every state (int32 size field).
+All side conditions of the save/load theorems (`PersistedStored`, `FitsRec`, `PH`, `Shape`, `KeyMin`, `DBInv`,
+`depth < loadFuel`, `save` total) are discharged inside by the invariant `SInv` (`setKV_sinv`). -/
+theorem store_reads_latest {H : Bytes → Bytes} (hlen : ∀ x, (H x).length = 32) (hz : ∀ x, H x ≠ zero32) (cfg : Cfg)
+    (hp : cfg.pfx = false) (hm : cfg.mvcc = false) (bs : List (List (Bytes × Bytes)))
+    (hb : ∀ b ∈ bs, ∀ p ∈ b, p.1.length < 2 ^ 64 ∧ p.2.length < 2 ^ 64)
+    (hsz : ∀ i, i ≤ bs.length → (SMap.insMany [] (bs.take i).flatten).length < 2 ^ 31) :
+    ((hist H (Store.new cfg) [] 1 bs).2.1.length = bs.length ∧
+      ∀ i root, (hist H (Store.new cfg) [] 1 bs).2.1[i]? = some root → ∀ ks,
+        ((hist H (Store.new cfg) [] 1 bs).1.get root ks).1 = .ok (ks.map (lastWrite (bs.take (i + 1)).flatten)) ∧
+        ((hist H (Store.new cfg) [] 1 bs).1.reopen.get root ks).1 = .ok (ks.map (lastWrite (bs.take (i + 1)).flatten))) ∨
+    C03.CollisionIn H (tracesOf H (hist H (Store.new cfg) [] 1 bs).2.2) := by
+  rcases hist_sinv hlen hz bs (Store.new cfg) [] [([], [])] [] [] 1 (sinv_new H cfg hp hm) (by simp) hb hsz with
+    ⟨hl, R', hi, _, hroots⟩ | col
+  · left
+    refine ⟨hl, ?_⟩
+    intro i root e ks
+    have hmem := hroots i root e
+    have hlk : ∀ k, SMap.lookup k (SMap.insMany [] (bs.take (i + 1)).flatten) = lastWrite (bs.take (i + 1)).flatten k := by
+      intro k
+      rw [lookup_insMany]
+      cases lastWrite (bs.take (i + 1)).flatten k <;> simp [SMap.lookup]
+    simp only [List.nil_append] at hi
+    refine ⟨?_, ?_⟩
+    · rw [sinv_get hlen _ _ R' hi root _ hmem ks]; simp only [hlk]
+    · rw [sinv_get hlen _ _ R' (sinv_reopen hi) root _ hmem ks]; simp only [hlk]
+  · right
+    simpa using col
+
+/-- non-vacuity of the hypotheses of `store_reads_latest` on a two-batch history (the bounds; `hlen` is satisfied
+by any 32-byte-valued function, `hz` by any such function that avoids one value, e.g. a constant one). -/
+example : (∃ H : Bytes → Bytes, (∀ x, (H x).length = 32) ∧ ∀ x, H x ≠ zero32) ∧
+    (∀ b ∈ [[(([1] : Bytes), ([2] : Bytes))], [([1], [3]), ([4], [5])]], ∀ p ∈ b, p.1.length < 2 ^ 64 ∧ p.2.length < 2 ^ 64) ∧
+    ∀ i, i ≤ 2 → (SMap.insMany [] (([[(([1] : Bytes), ([2] : Bytes))], [([1], [3]), ([4], [5])]].take i).flatten)).length < 2 ^ 31 := by
+  refine ⟨⟨fun _ => List.replicate 32 1, fun _ => by simp, fun _ => by show List.replicate 32 (1 : UInt8) ≠ zero32; decide⟩, by decide, ?_⟩
+  intro i hi
+  have : i = 0 ∨ i = 1 ∨ i = 2 := by omega
+  rcases this with rfl | rfl | rfl <;> decide
 
 end C01
